@@ -98,6 +98,9 @@ impl Property for C18 {
             drop_opts: true,
         }
     }
+    fn process_level(&self) -> bool {
+        true
+    }
     fn budget(&self, tier: Tier) -> Budget {
         match tier {
             Tier::Quick => Budget {
@@ -129,6 +132,9 @@ impl Property for C18 {
         // the non-empty input waits on stdin or in 1..2 file arguments (hook H2: opening or
         // reading them would show in the event history)
         case.set("on_files", i64::from(rng.chance(1, 3)));
+        // one scenario in 25 is also put to the real executable, whose calls on fds 0-2 the
+        // shim logs without changing them
+        case.set("process", i64::from(rng.chance(1, 25)));
         let base = serde_json::to_string(&case.opts).unwrap();
         case.strs.insert("base_opts".into(), base);
         let mut needs: Vec<String> = Vec::new();
@@ -501,6 +507,33 @@ impl Property for C18 {
                 "C18.rejected",
                 format!("invalid configuration ({kind}: {needs:?}) was accepted: {}", r.outcome.describe()),
             );
+        }
+        if case.param("process") == 1 {
+            // the same guarantee for main(): no read(2) on fd 0 and no write(2) on fd 1
+            match super::c20::run_watched(case, &input, ctx) {
+                Err(e) => {
+                    ctx.harness_error = Some(e);
+                    return None;
+                }
+                Ok((status, out, err, reads, writes)) => {
+                    ctx.stats.probe("process level: executable watched by the shim");
+                    if status == Some(0) {
+                        return viol("C18.rejected", format!("the executable accepted the invalid configuration ({kind}: {needs:?}): exit status 0"));
+                    }
+                    if reads > 0 || writes > 0 || !out.is_empty() {
+                        return viol(
+                            "C18.no-io",
+                            format!(
+                                "the executable did I/O before rejecting the invalid configuration ({kind}: {needs:?}): {reads} read call(s) on fd 0, {writes} write call(s) on fd 1, stdout {}",
+                                show(&out)
+                            ),
+                        );
+                    }
+                    if err.is_empty() {
+                        return viol("C18.rejected", format!("the executable rejected the configuration ({kind}) without a message on stderr"));
+                    }
+                }
+            }
         }
         None
     }
